@@ -132,6 +132,10 @@ def run_pair(case, ctx):
         ctx.count("pairs_large_offset_fine_grid")
     p = NNSpacePartitioner(k)
     p.build(s1.copy(), s2.copy())
+    if "literal" not in case and case["seed"][-1] % 3 == 0:
+        # another partitioner built on other samples before this one is read: objects must not share anything
+        NNSpacePartitioner(1).build(s2[::-1] * 2.0 + 1.0, s1[:1] - 3.0)
+        ctx.count("pairs_with_a_second_partitioner_alive")
     if not check_partition(p, s1, s2, k, ctx, base, "partitioner"):
         return
     ctx.count("pairs_checked")
